@@ -95,6 +95,9 @@ namespace sim
   void vc_tick();                // ++own component
   void vc_join(const VClock& o);
   std::string describe_tasks();
+  // race flavour: memory accesses of the calling thread are not judged while one of these exists (bookkeeping of a harness
+  // that relies on the baton - one task runs at a time - instead of locks); a no-op in the other flavours
+  struct NoRace { NoRace(); ~NoRace(); };
 
   // interposers use these
   void* task_tls();              // opaque per-thread task pointer (nullptr = unmanaged thread)
